@@ -189,6 +189,13 @@ def exhaustive(tier):
             for where in ("top", "deeper"):
                 for route in ("assign", "ctor", "append", "insert", "setitem", "extend"):
                     yield {"mode": "offered-instance", "configtype": configtype, "place": place, "where": where, "route": route}
+    # ONE config type (made from a schema that has a key of its own, from a sub-schema of a template, or from a bare schema)
+    # declared under several field keys: a rejection names the field key it happened under, in every state of the sub-config
+    for origin in ("keyed-schema", "template-subschema", "bare-schema"):
+        for place in ("root", "nested"):
+            for state in ("default-created", "after-load_tree", "after-map-assign", "after-loads-json"):
+                for route in ("setattr", "setitem-path", "load_tree", "loads-yaml"):
+                    yield {"mode": "keyed-configtype", "origin": origin, "place": place, "state": state, "route": route}
     # an include field at every depth whose value is rejected while the document is loaded (the named file is missing, is a
     # directory, is not text of the format; the value is not a string), per format and load route
     for depth in (0, 1, 2, 3):
@@ -280,6 +287,73 @@ def _offered_instance_case(case, R):
     got = err.ref_path
     R.check(got == want, "path", site, lambda: "offered item instance with %s unset: error names %r, the offending field is %r" % (bad_field, got, want))
     R.check(str(err).startswith(got), "text", "starts-with-path", lambda: "message %r does not start with the path %r" % (str(err)[:120], got))
+
+
+def _keyed_configtype_case(case, R):
+    cc = sandbox._state["cc"]
+    origin, place, state, route = case["origin"], case["place"], case["state"], case["route"]
+    if origin == "keyed-schema":
+        server = cc.Schema(key="server")
+    elif origin == "template-subschema":
+        templates = cc.Schema()
+        server = templates.server
+    else:
+        server = cc.Schema()
+    server.host = cc.HostnameField(default="localhost")
+    server.port = cc.PortField(default=80, name="Port")
+    server.limits.max = cc.IntField(default=10)
+    server.tags = cc.DictField(cc.StringField(), cc.IntField())
+    T = cc.make_type(server, "KeyedServer", module=__name__)
+    schema = cc.Schema()
+    holder = schema if place == "root" else schema.app
+    holder.primary = T
+    holder.backup = T
+    holder.name = cc.StringField(default="demo")
+    prefix = "" if place == "root" else "app."
+    wrap = (lambda t: t) if place == "root" else (lambda t: {"app": t})
+    R.label("keyed-configtype", "keyed-configtype:" + origin)
+    R.nontrivial = True
+    for which in ("primary", "backup"):
+        for leaf, bad, sub_tree in (("port", "not a port", {"port": "not a port"}), ("limits.max", "many", {"limits": {"max": "many"}}), ("tags[k]", "v", {"tags": {"k": "v"}})):
+            cfg = schema()
+            owner = cfg if place == "root" else cfg.app
+            try:
+                if state == "after-load_tree":
+                    cfg.load_tree(wrap({which: {"host": "h.example"}}))
+                elif state == "after-map-assign":
+                    setattr(owner, which, {"host": "h.example"})
+                elif state == "after-loads-json":
+                    cfg.loads(cc.ConfigFormat.get("json").dumps(cfg, wrap({which: {"host": "h.example"}, "name": "x"})), "json")
+            except Exception as exc:
+                R.fail("crash", "keyed-configtype:setup", "valid set-up raised %r" % (exc,))
+                return
+            want = "%s%s.%s" % (prefix, which, leaf)
+            try:
+                sub = getattr(owner, which)
+                if route == "setattr":
+                    if leaf == "port":
+                        sub.port = bad
+                    elif leaf == "limits.max":
+                        sub.limits.max = bad
+                    else:
+                        sub.tags = {"k": bad}
+                elif route == "setitem-path":
+                    cfg["%s%s.%s" % (prefix, which, leaf.replace("[k]", ""))] = bad if leaf != "tags[k]" else {"k": bad}
+                elif route == "load_tree":
+                    cfg.load_tree(wrap({which: sub_tree}))
+                else:
+                    cfg.loads(cc.ConfigFormat.get("yaml").dumps(cfg, wrap({which: sub_tree})), "yaml")
+                err = None
+            except Exception as exc:
+                err = exc
+            site = "keyed-configtype:%s:%s" % (route, state)
+            if not R.check(err is not None, "must-raise", site, "the bad value for %s was accepted" % want):
+                continue
+            if not R.check(isinstance(err, cc.ValidationError), "type", site + ":" + type(err).__name__, lambda: "raised %r" % (err,)):
+                continue
+            got = err.ref_path
+            R.check(got == want, "path", site, lambda: "config type from a %s declared as %sprimary and %sbackup (%s): error names %r, the offending field is %r" % (origin, prefix, prefix, state, got, want))
+            R.check(str(err).startswith(got or "\x00"), "text", "starts-with-path", lambda: "message %r does not start with the path %r" % (str(err)[:120], got))
 
 
 def _include_rejection_case(case, R):
@@ -606,6 +680,8 @@ def _takeover_case(case, R):
 def run_case(case, R):
     if case.get("mode") == "takeover":
         return _takeover_case(case, R)
+    if case.get("mode") == "keyed-configtype":
+        return _keyed_configtype_case(case, R)
     if case.get("mode") == "include-rejection":
         return _include_rejection_case(case, R)
     if case.get("mode") == "held-reoffered":
